@@ -36,13 +36,14 @@ type c03cfg struct {
 	inflight []string // kinds
 	late     []string // late clients: "quick" | "long"
 	sick     bool     // the targets fail their probes after deployment: unhealthy (out of rotation) but with requests in flight
+	rstopped bool     // rollout: `rollout stop` was issued after the in-flight requests reached the rollout target (its targets still belong to the service)
 	shortTT  bool     // the service's target timeout (1s) is shorter than the drain timeout: it bounds the wait for response headers, not a drain
 	held     bool     // rollout-redeploy only: the service is paused, two requests (one per group) are held, the command runs, then resume
 	prior    string   // "timeout" | "clean": the targets were drained before (a pause cutting off a request at its deadline / a pause with a request finishing early), then resumed
 }
 
 func (c c03cfg) String() string {
-	return fmt.Sprintf("cmd=%s targets=%d rollout=%v inflight=[%s] late=[%s] sick=%v prior=%s", c.cmd, c.targets, c.rollout, strings.Join(c.inflight, ","), strings.Join(c.late, ","), c.sick, c.prior) + map[bool]string{true: " held=true"}[c.held] + map[bool]string{true: " target-timeout=1s"}[c.shortTT]
+	return fmt.Sprintf("cmd=%s targets=%d rollout=%v inflight=[%s] late=[%s] sick=%v prior=%s", c.cmd, c.targets, c.rollout, strings.Join(c.inflight, ","), strings.Join(c.late, ","), c.sick, c.prior) + map[bool]string{true: " held=true"}[c.held] + map[bool]string{true: " target-timeout=1s"}[c.shortTT] + map[bool]string{true: " rollout-stopped"}[c.rstopped]
 }
 
 func c03Configs(tier string) []c03cfg {
@@ -146,6 +147,8 @@ func c03Configs(tier string) []c03cfg {
 // flight or arriving late, or with requests of both groups held by a pause that is lifted after the command returned.
 func c03RolloutRedeploy(tier string) []c03cfg {
 	cfgs := []c03cfg{
+		{cmd: "pause", targets: 1, rollout: true, rstopped: true, inflight: []string{"never", "after"}, late: []string{"quick"}},
+		{cmd: "stop", targets: 1, rollout: true, rstopped: true, inflight: []string{"early", "upgrade"}, late: []string{"quick"}},
 		{cmd: "rollout-redeploy", targets: 1, rollout: true, inflight: []string{"early", "never"}, late: []string{"long"}},
 		{cmd: "rollout-redeploy", targets: 1, rollout: true, inflight: []string{"upgrade", "after"}, late: []string{"quick", "quick"}},
 		{cmd: "rollout-redeploy", targets: 1, rollout: true, held: true},
@@ -292,6 +295,10 @@ func c03Scenario(c c03cfg) *Scenario {
 				defer wg.Done()
 				w.Do(spec)
 			})
+		}
+		if c.rstopped {
+			time.Sleep(50 * time.Millisecond) // the in-flight requests have reached their targets
+			w.RolloutStop("s1")
 		}
 		if c.held {
 			w.Pause("s1", vD, vMaxPause)
